@@ -587,6 +587,17 @@ def prove_equal(E, A, B, key, prop=False, timeout_ms=60000, info=None):
             np.round(av, 4).tolist()[:16], np.round(bv, 4).tolist()[:16]))
         return
     _CTX[0] = c
+    import numbers
+    if all(isinstance(x, numbers.Number) for x in a + b) and not prop:
+        # nothing symbolic on either side: plain numeric comparison
+        E.stats.checks += 1
+        if np.allclose(np.array(a, dtype=complex), np.array(b, dtype=complex),
+                       atol=1e-9):
+            E.stats.checks_unsat += 1
+        else:
+            E.cex.append(dict(key=key, info=info,
+                              inputs=E.snapshot(E._model())))
+        return
     za, zb = [ZC.of(x) for x in a], [ZC.of(x) for x in b]
     if prop:
         # all 2x2 minors vanish and both are non-zero
